@@ -35,6 +35,24 @@ CFG_LIST_KEYS = {"surfaces", "sections"}
 CFG_DICT_KEYS = {"surface", "section"}
 
 
+def canon_sub(sl):
+    """canonical text of a subscript: lower bound 0 dropped, no spaces, no
+    redundant trailing full slices."""
+    elts = list(sl.elts) if isinstance(sl, ast.Tuple) else [sl]
+    out = []
+    for e in elts:
+        if isinstance(e, ast.Slice):
+            lo = "" if (e.lower is None or (isinstance(e.lower, ast.Constant) and e.lower.value == 0)) else unparse(e.lower).replace(" ", "")
+            hi = "" if e.upper is None else unparse(e.upper).replace(" ", "")
+            st = "" if e.step is None else ":" + unparse(e.step).replace(" ", "")
+            out.append("%s:%s%s" % (lo, hi, st))
+        else:
+            out.append(unparse(e).replace(" ", ""))
+    while len(out) > 1 and out[-1] == ":":
+        out.pop()
+    return ",".join(out)
+
+
 class NeedAtom(Exception):
     def __init__(self, atom, cmp=None):
         self.atom = atom
@@ -609,6 +627,7 @@ class Interp:
             view=view,
             target=unparse(target),
             subs=tuple(unparse(x) for x in rest),
+            csubs=tuple(canon_sub(x) for x in rest),
             sub_vals=tuple(sub_vals),
             base=bv,
             mayc=bv.mayc,
@@ -1006,6 +1025,15 @@ class Interp:
             return ("cfglist", it.cx), elems
         if it.kind == "arr" and isinstance(it.extra, tuple) and it.extra and it.extra[0] == "arange" and it.cfg:
             it = Val("range", extra=(it.extra[1], it.extra[2]), cfg=True, dep=it.dep, cx=it.cx)
+        if it.kind == "range" and not enum:
+            lo0, hi0 = it.extra
+            try:
+                small = lo0 is not None and hi0 is not None and sp.sympify(lo0).is_Integer and sp.sympify(hi0).is_Integer and 0 < int(hi0) - int(lo0) <= 6
+            except Exception:
+                small = False
+            if small:
+                # a literal trip count: unroll, so that element stores get literal indices
+                return "unroll", [("lit%d" % i, num(i, cx=str(i))) for i in range(int(lo0), int(hi0))]
         if it.kind == "range":
             lo, hi = it.extra
             def elems(tag, lo=lo, hi=hi, it=it):
